@@ -118,6 +118,11 @@ def v1_step_oracle(ctx, w, op, cls, out, res, pre, post, spec, rep=None):
         ctx.violate("v1.buy_glp.negative_amount", f"buy_glp({op['tok']}, {op['amount']}) accepted: returned {res} GLP and credited the wallet", rep)
     if out == "ok" and op["kind"] in ("buy", "sell") and F(op["amount"]) >= 0 and (op["kind"] == "buy" or F(pre["glp"]) >= 0):
         v1_formula_oracle(ctx, w, op, res, spec, pre["glp"], rep)
+    if op["kind"] in ("buy", "sell") and F(post["reward"]) != F(pre["reward"]):
+        # rewards accrue once per bar, at update(), pro rata to the holding of that moment — no trade, accepted or rejected, touches the pending
+        # reward (theorem C17_v1_reward_accrues_pro_rata_over_runs)
+        ctx.violate(f"v1.{op['kind']}_glp.reward_changed", f"{op['kind']}_glp({op.get('tok')}, {op.get('amount')}) -> {out} changed the pending reward from {pre['reward']} to "
+                    f"{post['reward']} (holding {pre['glp']}): the bar's reward is accrued by update() alone", rep)
     if op["kind"] == "update" and out == "ok":
         r = w.market.market_status.data
         want = F(float(r["interval"])) * 60 * F(pre["glp"]) / F(r["glp"])
